@@ -1472,6 +1472,10 @@ static int rtr_send_error_pdu_from_host(const struct rtr_socket *rtr_socket, con
 					const uint32_t erroneous_pdu_len, const enum pdu_error_type error,
 					const char *err_text, const uint32_t err_text_len)
 {
+	// Error Reports without an encapsulated PDU (e.g. internal errors)
+	if (erroneous_pdu_len == 0)
+		return rtr_send_error_pdu(rtr_socket, NULL, 0, error, err_text, err_text_len);
+
 	char pdu[erroneous_pdu_len];
 
 	memcpy(&pdu, erroneous_pdu, erroneous_pdu_len);
